@@ -16,7 +16,10 @@ GEN_TABLES = ('Registry', 'Loops')
 RULE = ('cases = (method, dimension, data kind in {noise+peaks, large offset, tiny scale, negative, integer-valued, float32, int64, '
         'row/column/stack shapes, unsorted x}, size, output_dtype, parameter variation); each returning call is checked for baseline '
         'shape, dtype, order (against the sorted run), per-point parameter shapes, tol_history length/stop rule (trajectory replay '
-        'through the Lean loop skeleton) and finiteness; non-trivial = the call returned; distinct by canonical tuple')
+        'through the Lean loop skeleton) and finiteness; loop table (Gen/Loops, read from the source by AST): every translated row is run by the '
+        'Lean interpreter on the real difference stream of its method for a (max_iter, tol) grid incl. 0 and 1 and compared with the real call '
+        'observed by LoopSpy (allocation, set of written indices, returned slice, never-written entries), two-level rows on their own records; '
+        'non-trivial = the call returned; distinct by canonical tuple')
 ASSUMPTIONS = [
     'that each numerical core preserves the length of its input and returns finite numbers on finite noisy data is decided on the explored inputs only (partial)',
     'golden/loop_budget.json records, per method, how many iterations max_iter allows (derived once from the unchanged tree); since the loop table is translated from the source it is only cross-checked (theorem loops_budget_code)',
